@@ -54,6 +54,11 @@ def sample(all_shapes, rnd, n):
             if s not in seen:
                 seen.add(s)
                 sel.append(s)
+    # the few compound / absent path shapes always run
+    for s in all_shapes:
+        if s[2] in ("absent", "plus_keyless_before", "plus_keyless_after") and s not in seen:
+            seen.add(s)
+            sel.append(s)
     rest = [s for s in all_shapes if s not in seen]
     rnd.shuffle(rest)
     return sel + rest[:max(0, n - len(sel))]
